@@ -154,12 +154,13 @@ class ScriptedModel:
     algorithm classes can be pushed through region configurations no GP would produce (identical, touching, nested,
     re-growing regions).  predict() returns mean = centre and covariance = diag(half-width^2) (or the scripted Sigma)."""
 
-    def __init__(self, points, m, kind, G, seed, nidx_col=False):
+    def __init__(self, points, m, kind, G, seed, nidx_col=False, wander=False):
         self.points = np.asarray(points, dtype=float)
         self.m, self.kind, self.G = m, kind, G
         self.rs = np.random.RandomState(seed)
         n = len(self.points)
         self.truth = self.rs.randint(0, G + 1, size=(n, m))
+        self.wander = wander          # arbitrary (not truth-containing) posteriors: the means drift between rounds
         self.t = 0
         self.lo = np.zeros((n, m))
         self.hi = np.zeros((n, m))
@@ -179,6 +180,8 @@ class ScriptedModel:
                 w = int(self.rs.randint(0, wmax + 1))
                 off = int(self.rs.randint(0, w + 1))
                 self.lo[i, k] = self.truth[i, k] - off
+                if self.wander and self.rs.rand() < 0.5:
+                    self.lo[i, k] += int(self.rs.randint(-2, 3))
                 self.hi[i, k] = self.lo[i, k] + w
             if self.kind == "ell":
                 a, d = int(self.rs.randint(1, 4)), int(self.rs.randint(1, 4))
@@ -240,7 +243,7 @@ def build_scripted(cfg):
     def fake_factory(*args, **kw):
         X = kw.get("X")
         Y = kw.get("Y")
-        holder["model"] = ScriptedModel(X, Y.shape[1], sc["kind"], sc["G"], cfg.get("seed", 0))
+        holder["model"] = ScriptedModel(X, Y.shape[1], sc["kind"], sc["G"], cfg.get("seed", 0), wander=sc.get("wander", False))
         return holder["model"]
 
     saved = {}
@@ -256,7 +259,7 @@ def build_scripted(cfg):
     m = alg.m
     if "model" not in holder:   # PaVeBa / Auer build an EmpiricalMeanVarModel themselves: replace it
         pts = alg.design_space.points
-        holder["model"] = ScriptedModel(pts, m, sc["kind"], sc["G"], cfg.get("seed", 0))
+        holder["model"] = ScriptedModel(pts, m, sc["kind"], sc["G"], cfg.get("seed", 0), wander=sc.get("wander", False))
         alg.model = holder["model"]
     model = holder["model"]
     if a in ("VOGP", "EpsilonPAL"):
